@@ -44,5 +44,8 @@ def jobs(tier):
                     out.append(mk('C11', f'errors/{where}/{kind}/sync={sync}', S.errors(kind, where, sync=sync), witnesses=W))
             out.append(mk('C11', f'errors/parent/{kind}/ret_exc', S.errors(kind, 'parent', ret_exc=True), witnesses=W))
     out += matrix_jobs('C11', 'm1', tier)
+    out += mk('C11', 'deep4/await', S.deep4('await'))
+    out += mk('C11', 'deep4/ff', S.deep4('ff'))
+    out += mk('C11', 'deep4/ff/wild_raise', S.deep4('ff', wild_raise=True))
     out += matrix_jobs('C11', 'm3', tier)
     return flat(out)
